@@ -510,65 +510,76 @@ func respell(key, style string) string {
 
 func cfWholeBase(dir string) map[string]string {
 	return map[string]string{
-		"appender.con.type":                "Console",
-		"appender.con.layout.type":         "JSONLayout",
-		"appender.fil.type":                "File",
-		"appender.fil.fileDir":             dir,
-		"appender.fil.fileName":            `f\temp\new.log`, // backslashes followed by escape letters must survive the inline form
-		"appender.rol.type":                "RollingFile",
-		"appender.rol.fileDir":             dir,
-		"appender.rol.fileName":            "r.log",
-		"appender.rol.rotation":            "h",
-		"appender.rol.maxAge":              "24",
-		"appender.dis.type":                "Discard",
-		"appender.rec.type":                "Rec",
-		"logger.syn.type":                  "Logger",
-		"logger.syn.tags":                  "cf_a",
-		"logger.syn.level":                 "info",
-		"logger.syn.appenderRef.ref":       "rec",
-		"logger.asy.type":                  "AsyncLogger",
-		"logger.asy.tags":                  "cf_b",
-		"logger.asy.bufferSize":            "${bufSize}",
-		"logger.asy.bufferFullPolicy":      "Block",
-		"logger.asy.appenderRef[0].ref":    "fil",
-		"logger.asy.appenderRef[1].ref":    "rol",
-		"logger.asy.appenderRef[1].level":  "warn",
-		"logger.dsc.type":                  "Discard",
-		"logger.dsc.tags":                  "cf_c",
-		"logger.cns.type":                  "Console",
-		"logger.cns.tags":                  "cf_d",
-		"logger.fll.type":                  "File",
-		"logger.fll.tags":                  "cf_e",
-		"logger.fll.fileDir":               dir,
-		"logger.fll.fileName":              "fl.log",
-		"logger.rfl.type":                  "RollingFile",
-		"logger.rfl.tags":                  "cf_f_*",
-		"logger.rfl.fileDir":               dir,
-		"logger.rfl.fileName":              "app.log",
-		"logger.rfl.rotation":              "h",
-		"logger.rfl.separate":              "true",
-		"logger.rfa.type":                  "RollingFile",
-		"logger.rfa.tags":                  "cf_g",
-		"logger.rfa.fileDir":               dir,
-		"logger.rfa.fileName":              "async.log",
-		"logger.rfa.rotation":              "h",
-		"logger.rfa.async":                 "true",
-		"logger.rfa.bufferSize":            "300",
-		"logger.rfa.bufferFullPolicy":      "DiscardOldest",
-		"logger.rfa.layout.type":           "JSONLayout",
-		"logger.rfa.layout.fileLineLength": "33",
-		"logger.rfd.type":                  "RollingFile",
-		"logger.rfd.tags":                  "cf_h",
-		"logger.rfd.fileDir":               dir,
-		"logger.rfd.fileName":              "asyncdef.log",
-		"logger.rfd.rotation":              "h",
-		"logger.rfd.async":                 "true",
-		"logger.root.type":                 "Logger",
-		"logger.root.level":                "warn",
-		"logger.root.appenderRef.ref":      "con",
-		"bufSize":                          "256",
-		"enableCaller":                     "true",
-		"bufferCap":                        "4KB",
+		"appender.con.type":                    "Console",
+		"appender.con.layout.type":             "JSONLayout",
+		"appender.fil.type":                    "File",
+		"appender.fil.fileDir":                 dir,
+		"appender.fil.fileName":                `f\temp\new.log`, // backslashes followed by escape letters must survive the inline form
+		"appender.rol.type":                    "RollingFile",
+		"appender.rol.fileDir":                 dir,
+		"appender.rol.fileName":                "r.log",
+		"appender.rol.rotation":                "h",
+		"appender.rol.maxAge":                  "24",
+		"appender.dis.type":                    "Discard",
+		"appender.rec.type":                    "Rec",
+		"logger.syn.type":                      "Logger",
+		"logger.syn.tags":                      "cf_a",
+		"logger.syn.level":                     "info",
+		"logger.syn.appenderRef.ref":           "rec",
+		"logger.asy.type":                      "AsyncLogger",
+		"logger.asy.tags":                      "cf_b",
+		"logger.asy.bufferSize":                "${bufSize}",
+		"logger.asy.bufferFullPolicy":          "Block",
+		"logger.asy.appenderRef[0].ref":        "fil",
+		"logger.asy.appenderRef[1].ref":        "rol",
+		"logger.asy.appenderRef[1].level":      "warn",
+		"logger.dsc.type":                      "Discard",
+		"logger.dsc.tags":                      "cf_c",
+		"logger.cns.type":                      "Console",
+		"logger.cns.tags":                      "cf_d",
+		"logger.fll.type":                      "File",
+		"logger.fll.tags":                      "cf_e",
+		"logger.fll.fileDir":                   dir,
+		"logger.fll.fileName":                  "fl.log",
+		"logger.rfl.type":                      "RollingFile",
+		"logger.rfl.tags":                      "cf_f_*",
+		"logger.rfl.fileDir":                   dir,
+		"logger.rfl.fileName":                  "app.log",
+		"logger.rfl.rotation":                  "h",
+		"logger.rfl.separate":                  "true",
+		"logger.rfa.type":                      "RollingFile",
+		"logger.rfa.tags":                      "cf_g",
+		"logger.rfa.fileDir":                   dir,
+		"logger.rfa.fileName":                  "async.log",
+		"logger.rfa.rotation":                  "h",
+		"logger.rfa.async":                     "true",
+		"logger.rfa.bufferSize":                "300",
+		"logger.rfa.bufferFullPolicy":          "DiscardOldest",
+		"logger.rfa.layout.type":               "JSONLayout",
+		"logger.rfa.layout.fileLineLength":     "33",
+		"logger.rfd.type":                      "RollingFile",
+		"logger.rfd.tags":                      "cf_h",
+		"logger.rfd.fileDir":                   dir,
+		"logger.rfd.fileName":                  "asyncdef.log",
+		"logger.rfd.rotation":                  "h",
+		"logger.rfd.async":                     "true",
+		"appender.typeFile.type":               "File",
+		"appender.typeFile.fileDir":            dir,
+		"appender.typeFile.fileName":           "typed.log",
+		"appender.types.type":                  "Console",
+		"appender.types.layout.type":           "JSONLayout",
+		"appender.types.layout.fileLineLength": "21",
+		"logger.typed.type":                    "Logger",
+		"logger.typed.tags":                    "cf_i",
+		"logger.typed.level":                   "error",
+		"logger.typed.appenderRef[0].ref":      "typeFile",
+		"logger.typed.appenderRef[1].ref":      "types",
+		"logger.root.type":                     "Logger",
+		"logger.root.level":                    "warn",
+		"logger.root.appenderRef.ref":          "con",
+		"bufSize":                              "256",
+		"enableCaller":                         "true",
+		"bufferCap":                            "4KB",
 	}
 }
 
@@ -659,7 +670,7 @@ func cfWhole(r *hx.Result, rng *rand.Rand, tmp string, mutations int) {
 	reset := func() {
 		hx.Within(10*time.Second, func() { log.Destroy() })
 		log.VerifReset()
-		for _, t := range []string{"cf_a", "cf_b", "cf_c", "cf_d", "cf_e", "cf_f_x", "cf_g", "cf_h"} {
+		for _, t := range []string{"cf_a", "cf_b", "cf_c", "cf_d", "cf_e", "cf_f_x", "cf_g", "cf_h", "cf_i"} {
 			log.RegisterTag(t)
 		}
 	}
@@ -685,6 +696,7 @@ func cfWhole(r *hx.Result, rng *rand.Rand, tmp string, mutations int) {
 			reset()
 			h := log.GetLogger("asy")
 			hrfa, hrfd := log.GetLogger("rfa"), log.GetLogger("rfd")
+			htyped := log.GetLogger("typed")
 			cfg := base
 			if strings.HasPrefix(form, "expr:") {
 				cfg = exprFormStyled(base, strings.TrimPrefix(form, "expr:"), style)
@@ -730,6 +742,21 @@ func cfWhole(r *hx.Result, rng *rand.Rand, tmp string, mutations int) {
 			if log.BufferCap.Load() != 4096 {
 				r.Violate("instantiated-values", desc, "property bufferCap=4KB not injected: %d", log.BufferCap.Load())
 			}
+			// plugins whose names begin with "type"
+			if tl, ok := log.VerifHandleLogger(htyped).(*log.SyncLogger); !ok || tl.Level.MinLevel != log.ErrorLevel || len(tl.AppenderRefs.AppenderRefs) != 2 {
+				r.Violate("instantiated-values", desc, "logger typed is %T %+v, configured: Logger, level error, two references", log.VerifHandleLogger(htyped), log.VerifHandleLogger(htyped))
+			} else {
+				for _, ref := range tl.AppenderRefs.AppenderRefs {
+					if fa, ok := ref.Appender.(*log.FileAppender); ok && fa.FileName != "typed.log" {
+						r.Violate("instantiated-values", desc, "appender typeFile instantiated with fileName %q", fa.FileName)
+					}
+					if ca, ok := ref.Appender.(*log.ConsoleAppender); ok {
+						if jl, ok := ca.Layout.(*log.JSONLayout); !ok || jl.FileLineLength != 21 {
+							r.Violate("instantiated-values", desc, "appender types: layout %T %+v, configured JSONLayout with fileLineLength 21", ca.Layout, ca.Layout)
+						}
+					}
+				}
+			}
 			// the rolling-file logger in asynchronous mode: its attributes reach the logger that does the work
 			for name, hw := range map[string]*log.LoggerWrapper{"rfa": hrfa, "rfd": hrfd} {
 				rf, ok := log.VerifHandleLogger(hw).(*log.RollingFileLogger)
@@ -770,6 +797,11 @@ func cfWhole(r *hx.Result, rng *rand.Rand, tmp string, mutations int) {
 		{"unknown logger type", func(m map[string]string) { m["logger.syn.type"] = "Nope" }},
 		{"unknown appender type", func(m map[string]string) { m["appender.con.type"] = "Nope" }},
 		{"unknown layout type", func(m map[string]string) { m["appender.con.layout.type"] = "Nope" }},
+		{"unknown layout type on a logger (optional element)", func(m map[string]string) { m["logger.syn.layout.type"] = "Nope" }},
+		{"wrong-case layout type on an async logger", func(m map[string]string) { m["logger.asy.layout.type"] = "textLayout" }},
+		{"plugin of another category as layout of the root logger", func(m map[string]string) { m["logger.root.layout.type"] = "Console" }},
+		{"unknown layout type on a discard logger", func(m map[string]string) { m["logger.dsc.layout.type"] = "NoSuchLayout" }},
+		{"unknown layout type on a rolling-file logger, inline", func(m map[string]string) { m["logger.rfl.layout!"] = "NoSuchLayout{}" }},
 		{"missing logger type", func(m map[string]string) { delete(m, "logger.syn.type") }},
 		{"missing required attribute", func(m map[string]string) { delete(m, "appender.fil.fileName") }},
 		{"missing required element", func(m map[string]string) { delete(m, "logger.syn.appenderRef.ref") }},
